@@ -9,6 +9,7 @@
 package c07
 
 import (
+	"os"
 	"fmt"
 	"math"
 	"math/big"
@@ -42,6 +43,22 @@ var Prop = &engine.Prop{
 		"range clause: only non-negative ids are probed; ids whose timestamp lies strictly inside the last endpoint's second (after its first millisecond) are not judged",
 	},
 	ShardsQuick: 4, ShardsThorough: 16,
+	// the child processes run in a zone with daylight saving, chosen by the run's seed (so that a
+	// replay runs in the same zone): nothing the property states depends on the process zone
+	Setup: func(c *engine.Ctx) {
+		zi := int(uint64(c.Seed) % uint64(len(dstZoneNames)))
+		os.Setenv("TZ", dstZoneNames[zi])
+		// (the time package reads TZ when the local zone is first used; nothing has used it yet)
+		probe := time.Unix(1751328000, 0) // 2025-07-01
+		if loc := dstZone(zi); loc != nil {
+			_, want := probe.In(loc).Zone()
+			if _, got := probe.In(time.Local).Zone(); got == want {
+				c.Count("process_zone_"+dstZoneNames[zi], 1)
+			} else {
+				c.Count("process_zone_not_applied", 1)
+			}
+		}
+	},
 	Kinds: []engine.Kind{
 		// must stay first: its first case in a process makes the first codec calls of that process
 		{Name: "cold-start", Quick: 32, Thorough: 64, Fn: coldStartCase},
@@ -339,6 +356,22 @@ func genTs(r *rand.Rand, c *cfg) (int64, string) {
 		abs8 -= abs8 % dayMs
 		if ts, ok := in(abs8 - 8*3600*1000 + smallDelta(r)); ok {
 			return ts, "day_boundary"
+		}
+	case 8, 9:
+		// in or next to the hour that a zone with daylight saving repeats when it sets its clocks
+		// back (the process may run in such a zone; neptune's own zone has no such hour)
+		zi := r.Intn(len(dstZoneNames))
+		y0, y1 := yearOf(c.epoch)+1, yearOf(c.epoch+max)-1
+		if y1 > 2100 {
+			y1 = 2100
+		}
+		if y1 >= y0 {
+			if fb := fallbackOf(zi, y0+r.Intn(y1-y0+1)); fb != 0 {
+				d := r.Int63n(2*3600*1000+1) - 3600*1000
+				if ts, ok := in(fb + d); ok {
+					return ts, "dst_fall_back_hour"
+				}
+			}
 		}
 	}
 	return r.Int63n(max + 1), "uniform"
